@@ -40,7 +40,10 @@ fn reader_config(rcfg: &ReadCfg) -> ArchiveReaderConfig {
 }
 
 fn source(image: &Rc<Vec<u8>>, rcfg: &ReadCfg) -> SimSource {
-    let mut s = SimSource::new(image.clone(), &rcfg.sched, rcfg.budget);
+    let mut s = match &rcfg.spill_path {
+        Some(p) => SimSource::from_file(p, &rcfg.sched, rcfg.budget).expect("spill file"),
+        None => SimSource::new(image.clone(), &rcfg.sched, rcfg.budget),
+    };
     s.error_at_read = rcfg.error_at_read;
     s
 }
@@ -284,10 +287,9 @@ impl Sut for V {
         out
     }
 
-    fn repair(&self, image: Rc<Vec<u8>>, rcfg: &ReadCfg, auth: bool, out_cfg: &ArcCfg, out_sched: &Sched) -> RepairOut {
+    fn repair_into(&self, image: Rc<Vec<u8>>, rcfg: &ReadCfg, auth: bool, out_cfg: &ArcCfg, sink: SimSink) -> RepairOut {
         let src = source(&image, rcfg);
         let stats = src.stats_handle();
-        let sink = SimSink::new(out_sched);
         let mut out = RepairOut { init: Ok(()), convert: None, out_image: Vec::new(), panic: None, src: Default::default() };
         hook_set_seed(if out_cfg.rng_seed != 0 { Some(out_cfg.rng_seed) } else { None });
         let sink2 = sink.clone();
@@ -333,14 +335,14 @@ impl Sut for V {
         out
     }
 
-    fn linear(&self, image: Rc<Vec<u8>>, rcfg: &ReadCfg, subset: &[String], sink_sched: &Sched, sink_fail_call: Option<u64>) -> LinearOut {
+    fn linear_opts(&self, image: Rc<Vec<u8>>, rcfg: &ReadCfg, subset: &[String], sink_sched: &Sched, sink_fail_call: Option<u64>, keep: bool) -> LinearOut {
         let src = source(&image, rcfg);
         let mut out = LinearOut { open: Ok(()), result: None, got: BTreeMap::new(), panic: None };
         let sinks: Vec<(String, SimSink)> = subset
             .iter()
             .enumerate()
             .map(|(i, n)| {
-                let s = SimSink::new(sink_sched);
+                let s = if keep { SimSink::new(sink_sched) } else { SimSink::counting(sink_sched, None) };
                 if i == 0 {
                     s.0.borrow_mut().fail_from_call = sink_fail_call;
                 }
